@@ -27,7 +27,7 @@ var c05Table = map[byte]refmodel.Behaviour{
 	'D': {refmodel.SSilent, refmodel.SDefault404}, // the built-in not-found responder (last handler of "notfound" chains)
 	'e': {refmodel.SAddErr, refmodel.SNext, refmodel.SProbe},
 	'f': {refmodel.SAddErr},
-	'x': {refmodel.SNext, refmodel.SWrite, refmodel.SProbe}, // writes after the rest of the chain returned
+	'x': {refmodel.SNext, refmodel.SWrite, refmodel.SProbe},    // writes after the rest of the chain returned
 	'y': {refmodel.SNext, refmodel.SWriteStr, refmodel.SProbe}, // ... through io.WriteString(c.Resp, ...)
 	'v': {refmodel.SWriteStr, refmodel.SNext},
 }
